@@ -41,10 +41,15 @@ Inductive ecase :=
          (rj : result json)        (* type_to_json(decoded) by /repo *)
          (pj : result json)        (* type_to_json of a same-site copy of t with every TypedDict's fields
                                       reversed; OutOfModel when t has no TypedDict *)
+         (ptext_same : bool)       (* the raw JSON TEXT of that copy == the raw text of t's encoding (true when no copy) *)
 | ECDecode (j : json) (id : result ty)            (* decoder edge stream *)
 | ECTrace (expect_importable : bool) (tr : trace)
           (ir : result row)        (* CallTraceRow.from_trace(tr) by /repo *)
-          (ib : result dtrace).    (* .to_trace() of that row by /repo *)
+          (ib : result dtrace)     (* .to_trace() of that row by /repo *)
+          (text_same : bool).      (* CallTraceRow.from_trace of a copy of tr — argument dict built in reverse insertion
+                                      order, every TypedDict below an argument / return / yield type with its fields
+                                      reversed, same construction site — stores exactly the same arg_types,
+                                      return_type and yield_type STRINGS (the store de-duplicates rows by text) *)
 
 (* ---------- comparisons ---------- *)
 Definition is_opaque_name (s : string) : bool :=
@@ -65,9 +70,11 @@ Definition well_formed (t : ty) : bool := negb (opaque_ty t) && union_nfb t && w
 
 Definition jeq (a b : json) : bool := json_eqb (jsort a) (jsort b).
 
+(* model vs implementation: ORDERED comparison.  The model's JSON is key-sorted (jsort); the implementation's
+   is parsed in the order of the stored text, so a text that is not key-sorted disagrees with the model. *)
 Definition res_json_eqb (a b : result json) : bool :=
   match a, b with
-  | Ok x, Ok y => jeq x y
+  | Ok x, Ok y => json_eqb x y
   | Raises e, Raises e' => exn_eqb e e'
   | _, _ => false
   end.
@@ -82,13 +89,13 @@ Definition res_ty_corrb (a b : result ty) : bool :=
 Definition opt_json_eqb (a b : option json) : bool :=
   match a, b with
   | None, None => true
-  | Some x, Some y => jeq x y
+  | Some x, Some y => json_eqb x y
   | _, _ => false
   end.
 
 Definition row_eqb (a b : row) : bool :=
   String.eqb (r_module a) (r_module b) && String.eqb (r_qualname a) (r_qualname b)
-  && jeq (r_args a) (r_args b) && opt_json_eqb (r_ret a) (r_ret b) && opt_json_eqb (r_yield a) (r_yield b).
+  && json_eqb (r_args a) (r_args b) && opt_json_eqb (r_ret a) (r_ret b) && opt_json_eqb (r_yield a) (r_yield b).
 
 Definition res_row_eqb (a b : result row) : bool :=
   match a, b with
@@ -151,11 +158,13 @@ Definition perm_ok (ij pj : result json) : bool :=
   | _, _ => false
   end.
 
-Definition verdict_type (site : string) (t : ty) (ij : result json) (id : result ty) (rj pj : result json) : nat :=
+Definition verdict_type (site : string) (t : ty) (ij : result json) (id : result ty) (rj pj : result json)
+           (ptext_same : bool) : nat :=
   if negb (well_formed t) then 3 else
   let in_scope := negb (has_fwd t) && all_importable t in
   if in_scope && negb (type_prop_ok t ij id) then 2
   else if in_scope && negb (type_struct_ok (same_order t id) ij rj pj) then 2
+  else if in_scope && negb ptext_same then 2
   else
     if negb (res_json_eqb (type_to_json cn site t) ij) then 1 else
     if negb (match pj with OutOfModel => true | _ => res_json_eqb (type_to_json cn site t) pj end) then 1 else
@@ -196,10 +205,13 @@ Definition trace_prop_ok (tr : trace) (ir : result row) (ib : result dtrace) : b
   | _, _ => false
   end.
 
-Definition verdict_trace (expect : bool) (tr : trace) (ir : result row) (ib : result dtrace) : nat :=
+Definition verdict_trace (expect : bool) (tr : trace) (ir : result row) (ib : result dtrace) (text_same : bool) : nat :=
   if negb (forallb well_formed (trace_types tr) && nodup_strb (map fst (tr_args tr))) then 3 else
   let in_scope := expect && forallb (fun t => encodable t && all_importable t) (trace_types tr) in
   if in_scope && negb (trace_prop_ok tr ir ib) then 2
+  (* rows are a function of the structure: same stored text whatever the insertion orders were.  This clause
+     needs no importable function, only serialisable types *)
+  else if forallb (fun t => encodable t && all_importable t) (trace_types tr) && negb text_same then 2
   else
     (* the by-construction label of the fixture and the model's notion of an importable function agree *)
     if negb (Bool.eqb expect (importable_funcb fn ev (tr_func tr))) then 1 else
@@ -212,16 +224,16 @@ Definition verdict_trace (expect : bool) (tr : trace) (ir : result row) (ib : re
 
 Definition verdict (c : ecase) : nat :=
   match c with
-  | ECType site t ij id rj pj => verdict_type site t ij id rj pj
+  | ECType site t ij id rj pj ps => verdict_type site t ij id rj pj ps
   | ECDecode j id => verdict_decode j id
-  | ECTrace e tr ir ib => verdict_trace e tr ir ib
+  | ECTrace e tr ir ib ts => verdict_trace e tr ir ib ts
   end.
 
 Definition kf_class (c : ecase) : nat :=
   match c with
-  | ECType _ t ij id _ pj => kf_type t ij id pj
+  | ECType _ t ij id _ pj ps => if ps then kf_type t ij id pj else (if has_tuplevar t then 1 else 0)
   | ECDecode _ _ => 0
-  | ECTrace _ tr _ _ => if existsb has_tuplevar (trace_types tr) then 1 else 0
+  | ECTrace _ tr _ _ _ => if existsb has_tuplevar (trace_types tr) then 1 else 0
   end.
 
 Definition verdict_tagged (c : ecase) : nat :=
